@@ -671,9 +671,9 @@ class TemplateModel(object):
         logger.debug("Loading spikes subset waveforms to avoid fetching waveforms from raw data.")
         try:
             return Bunch(
-                waveforms=self._read_array(path, mmap_mode='r'),
-                spike_channels=self._read_array(path_channels),
-                spike_ids=self._read_array(path_spikes),
+                waveforms=read_array(path, mmap_mode='r'),
+                spike_channels=read_array(path_channels),
+                spike_ids=read_array(path_spikes),
             )
         except Exception as e:
             logger.warning("Could not load spike waveforms: %s.", e)
